@@ -119,6 +119,14 @@ def run(ctx: C.Ctx):
             continue
         c2, expect, desc = transform_case(rng, case, tkind)
         res2 = c2.run_real()
+        if tkind == "orth" and case.kind in ("ccqr", "qr") and rng.random() < 0.6:
+            # the same optimizer object (and the same cost array) refitted on the mixed matrix
+            opt, _ = case.make_optimizer()
+            opt.fit(case.B.copy())
+            r_again = np.array(opt.fit(c2.B.copy()).get_sensors()).tolist()
+            desc["reused_optimizer_object"] = True
+            if r_again[:upto] != res2["ranking"][:upto]:
+                res2 = dict(res2); res2["ranking"] = r_again
         # uniqueness must also hold for the transformed instance's own trace (tie order may be relabelled)
         want = expect(res["ranking"])[:upto]
         got = res2["ranking"][:upto]
